@@ -617,7 +617,8 @@ def staticLimit (key : List Prim → Option Nat) (maxv : Nat)
     (args : List (List Prim)) (tp : Tape) : R (List (List Prim) × Tape) :=
   match op args tp with                                                  -- :941
   | .error e => .error e
-  | .ok (new, tp) => staticLimitLoop key maxv args new tp                 -- keep_inds = copies of args (:940)
+  -- keep_inds = copies of the leading arguments, one per returned tree (gp.py:957, 960)
+  | .ok (new, tp) => staticLimitLoop key maxv (args.take new.length) new tp
 
 /-! ## List-level checkers used by the theorems and the driver -/
 
